@@ -2,26 +2,26 @@
    Statements only; proofs are in Proofs/Rrect.v.  Model: Model/Rrect.v + Model/Style.v
    (rounded_rectangle/styled.rs as repaired by 706995e, common/{scanline,styled_scanline}.rs, primitive_style.rs).
    pix_get (writes_of_calls bb calls) p = colour of p after the fill_solid calls of draw_styled on a target with
-   bounding box bb (None = untouched).  styled_ok r st: stroke area and fill area lie in the no-saturation range.
+   bounding box bb (None = untouched).  styled_dom r st: stroke area and fill area lie in the no-saturation range.
    KNOWN FINDING (FINDINGS-C06.md, known_findings.txt class K06_rrect_fill_outside_stroke): the implementation violates the
    property when some fill_area() point lies outside stroke_area(); the theorem excludes exactly that class and
    C06_rrect_styled_spec_refuted shows the exclusion is necessary. *)
-From EG Require Import Base.Prelude Model.Geometry Model.Style Model.Rrect Proofs.Geometry Proofs.Rrect.
+From EG Require Import Base.Prelude Model.Geometry Model.Style Model.Rrect Proofs.Geometry Proofs.Curvefacts Proofs.Rrect Proofs.Rrect2.
 
 (* fill colour iff fill_area() contains the point; stroke colour iff stroke_area() contains it, fill_area() does not
    and the width is non-zero; everything else untouched; nothing outside the target box *)
 Theorem C06_rrect_styled_spec : forall r st bb p,
-  styled_ok r st -> K06_rrect_fill_outside_stroke r st = false ->
+  styled_dom r st -> K06_rrect_fill_outside_stroke r st = false ->
   pix_get (writes_of_calls bb (rr_draw r st)) p =
   if contains bb p
   then (if rr_contains (rr_fill_area r st) p then fill_color st
         else if rr_contains (rr_stroke_area r st) p && (0 <? stroke_width st) then stroke_color st else None)
   else None.
-Proof. exact rr_styled_spec. Qed.
+Proof. intros; eapply rr_styled_spec; eauto using rr_dom_ok, styled_dom_ok. Qed.
 
 (* without the exclusion (every input in range): what draw_styled paints in terms of the two areas *)
 Theorem C06_rrect_draw_image : forall r st bb p,
-  styled_ok r st ->
+  styled_dom r st ->
   pix_get (writes_of_calls bb (rr_draw r st)) p =
   if contains bb p
   then match effective_stroke_color st with
@@ -30,26 +30,70 @@ Theorem C06_rrect_draw_image : forall r st bb p,
        | None => if rr_contains (rr_fill_area r st) p then fill_color st else None
        end
   else None.
-Proof. exact rr_draw_pixmap. Qed.
+Proof. intros; eapply rr_draw_pixmap; eauto using rr_dom_ok, styled_dom_ok. Qed.
 
 (* the same for pixels() *)
 Theorem C06_rrect_pixels_image : forall r st bb p,
-  styled_ok r st ->
+  styled_dom r st ->
   pix_get (writes_of_pixels bb (rr_pixels r st)) p =
   if contains bb p
   then (if rr_contains (rr_stroke_area r st) p
         then (if rr_contains (rr_fill_area r st) p then fill_color st else stroke_color st) else None)
   else None.
-Proof. exact rr_pixels_pixmap. Qed.
+Proof. intros; eapply rr_pixels_pixmap; eauto using rr_dom_ok, styled_dom_ok. Qed.
+
+(* pixels() in the same form (the class exclusion is needed here as well: pixels() only ever looks inside the stroke area) *)
+Theorem C06_rrect_pixels_spec : forall r st bb p,
+  styled_dom r st -> 0 <= stroke_width st -> K06_rrect_fill_outside_stroke r st = false ->
+  pix_get (writes_of_pixels bb (rr_pixels r st)) p =
+  if contains bb p
+  then (if rr_contains (rr_fill_area r st) p then fill_color st
+        else if rr_contains (rr_stroke_area r st) p && (0 <? stroke_width st) then stroke_color st else None)
+  else None.
+Proof. intros; eapply rr_pixels_spec; eauto using rr_dom_ok, styled_dom_ok. Qed.
+
+(* no visible stroke - stroke colour absent, or stroke width 0 (whatever the stroke colour) -: both renderers paint the fill
+   colour on fill_area() and nothing else; with width 0 the input is never in the class *)
+Theorem C06_rrect_no_visible_stroke : forall r st bb p,
+  styled_dom r st -> 0 <= stroke_width st -> K06_rrect_fill_outside_stroke r st = false ->
+  stroke_color st = None \/ stroke_width st = 0 ->
+  let img := if contains bb p && rr_contains (rr_fill_area r st) p then fill_color st else None in
+  pix_get (writes_of_calls bb (rr_draw r st)) p = img /\ pix_get (writes_of_pixels bb (rr_pixels r st)) p = img.
+Proof. intros; eapply rr_no_stroke_image; eauto using rr_dom_ok, styled_dom_ok. Qed.
+
+Theorem C06_rrect_width0_not_in_class : forall r st,
+  stroke_width st = 0 -> K06_rrect_fill_outside_stroke r st = false.
+Proof. exact K06_false_width0. Qed.
+
+(* the class is empty whenever no radius needs confinement in either area (sums of the radii on every side <= that side, for the
+   stroke area and for the fill area) ... *)
+Theorem C06_rrect_no_oversize_no_K06 : forall r st,
+  rr_dom r -> radii_le (rr_corners r) bound -> 0 <= stroke_width st <= bound -> styled_dom r st ->
+  radii_fit (rr_corners (rr_stroke_area r st)) (sz (rr_rect (rr_stroke_area r st))) ->
+  radii_fit (rr_corners (rr_fill_area r st)) (sz (rr_rect (rr_fill_area r st))) ->
+  K06_rrect_fill_outside_stroke r st = false.
+Proof. intros; eapply rr_no_oversize_no_K06; eauto using rr_dom_ok, styled_dom_ok. Qed.
+
+(* ... stated on the input alone: the shape's radii fit its sides, and the radii shrunk by the inside width (clamped at 0) fit
+   the sides shrunk by twice that width (only asked when the fill area is not empty) *)
+Theorem C06_rrect_input_no_K06 : forall r st,
+  rr_dom r -> radii_le (rr_corners r) bound -> 0 <= stroke_width st <= bound -> styled_dom r st ->
+  1 <= sw (sz (rr_rect r)) -> 1 <= sh (sz (rr_rect r)) ->
+  radii_fit (rr_corners r) (sz (rr_rect r)) ->
+  (2 * fill_inset st < sw (sz (rr_rect r)) -> 2 * fill_inset st < sh (sz (rr_rect r)) ->
+   radii_fit (map_radii (shrink_size (fill_inset st)) (rr_corners r))
+             (S (sw (sz (rr_rect r)) - 2 * fill_inset st) (sh (sz (rr_rect r)) - 2 * fill_inset st))) ->
+  K06_rrect_fill_outside_stroke r st = false.
+Proof. intros; eapply rr_input_no_K06; eauto using rr_dom_ok, styled_dom_ok. Qed.
 
 (* the finding is machine-checked: an input in range, inside the class, on which the unrestricted statement fails *)
 Theorem C06_rrect_styled_spec_refuted :
   exists r st bb p,
-    styled_ok r st /\ rr_ok r /\ K06_rrect_fill_outside_stroke r st = true /\ contains bb p = true /\
+    styled_dom r st /\ rr_dom r /\ K06_rrect_fill_outside_stroke r st = true /\ contains bb p = true /\
     pix_get (writes_of_calls bb (rr_draw r st)) p <>
     (if rr_contains (rr_fill_area r st) p then fill_color st
      else if rr_contains (rr_stroke_area r st) p && (0 <? stroke_width st) then stroke_color st else None).
-Proof. exact rr_styled_spec_refuted. Qed.
+Proof. exact rr_styled_spec_refuted_dom. Qed.
 
 (* geometry of the two areas: the base rectangle grown by the outside part / shrunk by the inside part of the width
    (C16_offset_grow / C16_offset_shrink describe `offset`), every corner radius changed by the same amount *)
@@ -59,24 +103,62 @@ Theorem C06_rrect_area_boxes : forall r st,
     offset (rr_rect r) (match stroke_kind st with Solid => - sat_u32_to_i32 (inside_stroke_width st) | Dotted => 0 end).
 Proof. intros r st. split; reflexivity. Qed.
 
+(* the radii: every corner radius grows by the outside part / shrinks by the inside part of the width (both components, clamped
+   at 0); contains()/points()/draw() then use these radii confined (CornerRadii::confine) to the area's own box.
+   fill_inset st = the inside part for solid strokes (0 for dotted ones) *)
+Theorem C06_rrect_area_radii : forall r st,
+  radii_nonneg (rr_corners r) -> radii_le (rr_corners r) bound -> 0 <= stroke_width st <= bound ->
+  rr_corners (rr_stroke_area r st) = map_radii (grow_size (outside_stroke_width st)) (rr_corners r) /\
+  rr_corners (rr_fill_area r st) = map_radii (shrink_size (fill_inset st)) (rr_corners r) /\
+  conf (rr_stroke_area r st) =
+    confine (map_radii (grow_size (outside_stroke_width st)) (rr_corners r)) (sz (rr_rect (rr_stroke_area r st))) /\
+  conf (rr_fill_area r st) =
+    confine (map_radii (shrink_size (fill_inset st)) (rr_corners r)) (sz (rr_rect (rr_fill_area r st))).
+Proof. exact rr_area_radii. Qed.
+
+(* geometric meaning, non-degenerate shape whose radii fit: the stroke area is the shape grown by the outside width n on every
+   side: rows and columns of the box extend by n at both ends, every radius grows by n and still fits (nothing is confined),
+   and the straight rows (rows without a corner on the left / right side) are those of the shape itself *)
+Theorem C06_rrect_stroke_area_grow : forall r st,
+  rr_dom r -> radii_le (rr_corners r) bound -> 0 <= stroke_width st <= bound -> rr_dom (rr_stroke_area r st) ->
+  1 <= sw (sz (rr_rect r)) -> 1 <= sh (sz (rr_rect r)) -> radii_fit (rr_corners r) (sz (rr_rect r)) ->
+  let n := outside_stroke_width st in
+  let sa := rr_stroke_area r st in
+  rr_rect sa = R (P (px (tl (rr_rect r)) - n) (py (tl (rr_rect r)) - n)) (S (sw (sz (rr_rect r)) + 2 * n) (sh (sz (rr_rect r)) + 2 * n)) /\
+  conf sa = map_radii (grow_size n) (rr_corners r) /\
+  c_rows (rrc_new sa) = (fst (c_rows (rrc_new r)) - n, snd (c_rows (rrc_new r)) + n) /\
+  c_columns (rrc_new sa) = (fst (c_columns (rrc_new r)) - n, snd (c_columns (rrc_new r)) + n) /\
+  c_srl (rrc_new sa) = c_srl (rrc_new r) /\ c_srr (rrc_new sa) = c_srr (rrc_new r).
+Proof. intros; eapply rr_stroke_area_grow; eauto using rr_dom_ok, styled_dom_ok. Qed.
+
+(* the fill area is the shape shrunk by the inside width m on every side; empty as soon as a side is <= 2m *)
+Theorem C06_rrect_fill_area_shrink : forall r st,
+  rr_dom r -> rr_dom (rr_fill_area r st) -> 0 <= stroke_width st <= bound ->
+  let m := fill_inset st in
+  (2 * m < sw (sz (rr_rect r)) -> 2 * m < sh (sz (rr_rect r)) ->
+   rr_rect (rr_fill_area r st) =
+     R (P (px (tl (rr_rect r)) + m) (py (tl (rr_rect r)) + m)) (S (sw (sz (rr_rect r)) - 2 * m) (sh (sz (rr_rect r)) - 2 * m))) /\
+  (sw (sz (rr_rect r)) <= 2 * m \/ sh (sz (rr_rect r)) <= 2 * m -> 0 < m -> forall p, rr_contains (rr_fill_area r st) p = false).
+Proof. intros; eapply rr_fill_area_shrink; eauto using rr_dom_ok, styled_dom_ok. Qed.
+
 Theorem C06_rrect_inside_stroke_stays_in : forall r st bb p,
-  styled_ok r st -> rr_ok r -> radii_u32 r -> K06_rrect_fill_outside_stroke r st = false ->
+  styled_dom r st -> rr_dom r -> radii_u32 r -> K06_rrect_fill_outside_stroke r st = false ->
   stroke_alignment st = Inside ->
   pix_get (writes_of_calls bb (rr_draw r st)) p <> None -> rr_contains r p = true.
-Proof. exact rr_inside_stroke_stays_in. Qed.
+Proof. intros; eapply rr_inside_stroke_stays_in; eauto using rr_dom_ok, styled_dom_ok. Qed.
 
 Theorem C06_rrect_outside_stroke_stays_out : forall r st bb p,
-  styled_ok r st -> rr_ok r -> radii_u32 r -> K06_rrect_fill_outside_stroke r st = false ->
+  styled_dom r st -> rr_dom r -> radii_u32 r -> K06_rrect_fill_outside_stroke r st = false ->
   stroke_alignment st = Outside -> rr_contains r p = true ->
   pix_get (writes_of_calls bb (rr_draw r st)) p = if contains bb p then fill_color st else None.
-Proof. exact rr_outside_stroke_stays_out. Qed.
+Proof. intros; eapply rr_outside_stroke_stays_out; eauto using rr_dom_ok, styled_dom_ok. Qed.
 
 (* non-vacuity: the shape of the repaired defect j (4x20, inside stroke 3, collapsed fill) is in range, outside the class,
    and paints the stroke colour over the whole shape *)
 Example C06_rrect_nonvacuous :
   let r := rr_with_equal_corners (R (P 0 0) (S 4 20)) (S 1 1) in
   let st := Style (Some 5) (Some 7) 3 Inside Solid in
-  K06_rrect_fill_outside_stroke r st = false /\
+  styled_dom r st /\ K06_rrect_fill_outside_stroke r st = false /\
   pix_get (writes_of_calls (R (P (-5) (-5)) (S 30 30)) (rr_draw r st)) (P 1 10) = Some 7 /\
   length (rr_draw r st) = 20%nat.
-Proof. vm_compute. repeat split; reflexivity. Qed.
+Proof. cbv zeta. split; [split; apply rr_dom_b; vm_compute; reflexivity|]. vm_compute. repeat split; reflexivity. Qed.
